@@ -26,7 +26,7 @@ Definition through (lower : text -> text) (dt : dtype) (f : format) (m : matrix)
     do t <- write_phylip (symbols_as_string a) wo m ;; read_phylip lower Z (phylip_states a) ro t
   | FNexus simple =>
     do toks <- write_chars_block dt [a] [] (mkNW simple None None) m ;;
-    do x <- read_chars_block lower
+    do x <- read_chars_block lower keep_ns
               (if simple then nx_init [] None false else nx_init (map fst m) (Some (len m)) false) toks ;;
     match x with
     | (_, [b], _) => Ok (br_rows b)
